@@ -12,7 +12,7 @@ PROPERTIES_V = 'theories/C18/Properties.v'
 IMPORTS = 'Require Import FV.Gen.C18 FV.C18.Model FV.C18.Run.'
 CASE_TYPE = 'case'
 CHECK = 'check_case'
-SHARD_SIZE = 300
+SHARD_SIZE = 200
 RULE = ('four case kinds, each a generated layout + an operation history of depth 1..8 run on a freshly built real module '
         '(client operations through the real Dispatcher._setParameterValue/_getParameterValue, driver operations through '
         'the wrapped read_/write_ methods, attribute assignment, update_target, a change of the fake hardware or of its fault script): '
@@ -1074,7 +1074,7 @@ def exhaustive_cases(depth):
 
 def gen_cases(seed, tier):
     rng = random.Random(seed * 1000003 + 18)
-    per_kind = {'quick': 1200, 'thorough': 25000, 'search': 25000}[tier]
+    per_kind = {'quick': 1200, 'thorough': 15000, 'search': 15000}[tier]
     cases = []
     for kind in ('st', 'fe', 'li', 'co'):
         cases.extend(rand_case(rng, kind) for _ in range(per_kind))
